@@ -65,6 +65,13 @@ PLANS = {
         "quick": [("c12q", inst(LeafFam="<-C12Leaves", MaxLeaves=2, MaxCalls=3), {"clones": 1}, None)],
         "thorough": [("c12t", inst(LeafFam="<-C12Leaves", MaxLeaves=2, MaxCalls=5), {"clones": 2}, None)],
     },
+    "C14": {
+        # the feature set without any mutex API: single-use returns must be rejected when the mock is constructed,
+        # everything else behaves as usual (HasStd = FALSE: no thread check, a panic through the original disables its verification)
+        "quick": [("c14m", inst(LeafFam="<-C14MutexLeaves", MaxLeaves=2, MaxCalls=2, HasMutexApi=False, HasStd=False), {"nomutex": True}, None)],
+        "thorough": [("c14mt", inst(LeafFam="<-C14MutexLeaves", MaxLeaves=2, MaxCalls=3, HasMutexApi=False, HasStd=False, OnlyMentioned=False,
+                                    Method='{"r0", "t0", "b0", "d0"}'), {"nomutex": True}, None)],
+    },
     "C15": {
         "quick": [("c15q", inst(LeafFam="<-C15LeavesQ", MaxLeaves=2, MaxCalls=2, OnlyMentioned=False, Method='{"r0", "r1", "d0", "d1"}',
                                 ScriptFam="<-cScriptsQ"), {"clones": 1}, None)],
